@@ -27,6 +27,7 @@ K_INV = 'C09:spatial_inversion:infinite:_S-reversed-instead-of-mirrored-around-b
 K_GROUP = 'C09:group_sites:last-group-has-one-site:get_theta(n=1)-ignores-formL-formR'
 K_ADD = 'C09:add:same-charge-sector:per-tensor-qtotal-differs:ValueError-wrong-qtotal'
 K_CPLX = 'C09:apply_local_op:infinite:complex-nonunitary-op-on-real-iMPS:canonical_form_infinite1-result-not-canonical'
+K_EES = 'C09:extract_enlarged_segment:one-side-unchanged:segment_boundaries-overwritten-with-old-ones'
 K_ENL = 'C09:enlarge_chi:int-extra:mod-N-charge:vL-leg-with-qconj=-1(after-spatial_inversion):invalid-charge'
 REFUSALS = ('QR for Gram-Schmidt messed up charges', "can't extract JW signs from the charges")
 
@@ -419,6 +420,7 @@ class FRef:
                 if op.get('renormalize', True):
                     self.vec = self.vec / max(1e-300, nb) * self.frozen_norm
                 self.norm_in_tensors = False
+            self.approx = False
             self.canonicalised()
         elif t == 'swap_sites':
             i = op['i'] % L
@@ -465,7 +467,7 @@ class FRef:
             self.grouped = op['n']
         elif t == 'group_split':
             self.grouped = 1
-            if op.get('trunc_class') in ('truncating', 'default') or 'trunc' not in op:
+            if op.get('trunc_class') == 'truncating' or op.get('trunc') is None:
                 self.trunc = 'split'
         elif t in ('enlarge_chi', 'subspace_expansion'):
             self.zero_S = True
@@ -510,7 +512,7 @@ def check_enlarge_perms(A, prev_kk, prev_o, kk, o, ex, finite, failf):
 
 def check_gauge(op, ex, S, prev_o, failf):
     """documented effect of gauge_total_charge on the charge bookkeeping (the state itself is compared densely)"""
-    q = op.get('qtotal')
+    q = ex.get('qtotal_arg', op.get('qtotal'))
     if q is not None and not (q and isinstance(q[0], list)):
         if ex['qtotal_after'] != S.valid(q):
             failf('get_total_charge() = %s after gauge_total_charge(qtotal=%s)' % (ex['qtotal_after'], q))
@@ -536,6 +538,14 @@ def rdm_axes(vec, keep):
     M = th.reshape(D, -1)
     rho = M @ M.conj().T
     return rho / np.trace(rho)
+
+
+def ees_one_sided(op, ex):
+    """extract_enlarged_segment that enlarges on one side only (structural condition of the known finding K_EES)"""
+    if op is None or op['op'] != 'extract_enlarged_segment' or 'new_first_last' not in ex:
+        return False
+    nf, nl = ex['new_first_last']
+    return (nf == op['first']) != (nl == op['last'])
 
 
 def check_reseed(ref, prev_vec, prev_kinds, prev_nvirt, op, ex, cur, o, A, kk, SI, failf):
@@ -616,7 +626,8 @@ def check_reseed(ref, prev_vec, prev_kinds, prev_nvirt, op, ex, cur, o, A, kk, S
         if d > 1e-7:
             failf('the enlarged segment [%d, %d] (outer legs in the bases of the background state) is not the segment contracted with the '
                   'background tensors A[%d..%d], B[%d..%d]: normalised difference %.2e, overlap %s' % (
-                      nf, nl, nf, first - 1, last + 1, nl, d, np.round(np.vdot(w, c) / np.linalg.norm(w) / np.linalg.norm(c), 8)))
+                      nf, nl, nf, first - 1, last + 1, nl, d, np.round(np.vdot(w, c) / np.linalg.norm(w) / np.linalg.norm(c), 8)),
+                  K_EES if ees_one_sided(op, ex) else None)
         if o['bc'] == 'segment':
             return FRef(cur.reshape(want.shape), kinds, SI, nvirt=2)
         return FRef(cur.reshape(want.shape), kinds, SI)
@@ -628,7 +639,10 @@ def obs_dense(A, kk, o, seg):
     be formed"""
     nrm = cplx(o['norm'])
     if seg:
-        th = c07.segment_dense(A, kk, o)
+        try:
+            th = c07.segment_dense(A, kk, o)
+        except ValueError as e:
+            return None, 'the recorded segment_boundaries do not fit the outer legs of the tensors (%s)' % e
         if th is None:
             return None, 'a stored tensor of the segment lost its form label / singular values'
         return np.moveaxis(th, 0, -2), None
@@ -699,6 +713,8 @@ def check_finite_case(ctx, case, r, A, key, D, SI, perm_lits, perm_meta):
         prev_nvirt = ref.nvirt
         if k > 0:
             op = ops[k - 1]
+            if getattr(ref, 'approx', False) and op['op'] != 'canonical_form':
+                return           # after a truncation inside swap / split the canonical form holds only approximately
             Dother = G.build_data(op['other'], SI) if op['op'] == 'add' and 'other' in op else None
             ref.apply(op, Dother)
             if op['op'].startswith('apply_') and ref.raw_ratio < 1e-9:
@@ -742,11 +758,11 @@ def check_finite_case(ctx, case, r, A, key, D, SI, perm_lits, perm_meta):
             # the documented result is not a function of the dense state alone (random unitaries / new outer bases):
             # characterise it, then continue from the state of the run
             cur, why = obs_dense(A, kk, o, now_seg)
-            if cur is None:
-                fail(why, k)
-                return
             ex = r['extra'][k - 1] if k - 1 < len(r['extra']) else {}
-            newref = check_reseed(ref, prev_ref_vec, prev_kinds, prev_nvirt, opn, ex, cur, o, A, kk, SI, lambda m_: fail(m_, k))
+            if cur is None:
+                fail(why, k, K_EES if ees_one_sided(opn, ex) else None)
+                return
+            newref = check_reseed(ref, prev_ref_vec, prev_kinds, prev_nvirt, opn, ex, cur, o, A, kk, SI, lambda m_, mk=None: fail(m_, k, mk))
             if newref is None or state['dead']:
                 return
             ref = newref
@@ -794,9 +810,11 @@ def check_finite_case(ctx, case, r, A, key, D, SI, perm_lits, perm_meta):
             ref.vec = (v * nrm).reshape(ref.vec.shape)
             if eps > 1e-14:
                 ref.not_canonical = True       # truncation leaves the canonical form only approximately
+                if ref.trunc in ('swap', 'split'):
+                    ref.approx = True          # (tensors neither normalised nor orthonormal: only canonical_form may follow)
             want = ref.vec.reshape(-1)
             scale = max(1e-300, np.linalg.norm(want))
-        if abs(abs(nrm) - scale) > 1e-8 * max(1., scale) and not ref.norm_in_tensors and \
+        if abs(abs(nrm) - scale) > 1e-8 * max(1., scale) and not ref.norm_in_tensors and not getattr(ref, 'approx', False) and \
                 not (opn and opn['op'] in ('swap_sites', 'permute_sites', 'group_split')):
             fail('psi.norm = %r, the dense state has norm %r' % (nrm, scale), k)
         if ref.norm_in_tensors and abs(abs(nrm) - ref.frozen_norm) > 1e-8 * max(1., ref.frozen_norm):
@@ -976,6 +994,7 @@ class IRef:
             elif not op.get('renormalize', False):
                 self.norm = self.norm * fac
         elif t == 'canonical_form':
+            self.approx = False
             if getattr(self, 'pending', None) is not None:
                 if not op.get('renormalize', True):
                     self.norm = self.norm * self.pending
@@ -1003,7 +1022,7 @@ class IRef:
                         done = False
         elif t in ('compress', 'compress_svd', 'perturb'):
             self.reseed = t
-        elif t == 'group_split' and ('trunc' not in op or op.get('trunc_class') == 'truncating'):
+        elif t == 'group_split' and (op.get('trunc') is None or op.get('trunc_class') == 'truncating'):
             self.reseed = t
         # convert_form, group_sites+group_split, enlarge_chi, gauge_total_charge, copy, get_grouped_mps, compute_K: unchanged
         self._tm = None
@@ -1273,6 +1292,7 @@ def check_infinite_case(ctx, case, r, A, key, D, SI, perm_lits, perm_meta):
                 tp = opx.get('trunc') or {}
                 if 'chi_max' in tp and o.get('chi') and max(o['chi']) > tp['chi_max']:
                     fail('bond dimensions %s after truncation with chi_max=%d' % (o['chi'], tp['chi_max']), k)
+                new.approx = eps > 1e-14       # truncation leaves the canonical form only approximately
             ref = new
         L = len(ref.kinds)
         S = ref.S()
@@ -1281,8 +1301,8 @@ def check_infinite_case(ctx, case, r, A, key, D, SI, perm_lits, perm_meta):
         if abs(abs(nrm) - ref.norm) > 1e-6 * max(1, ref.norm):
             fail('psi.norm = %r, expected %r' % (nrm, ref.norm), k)
         segs = (ops[k - 1].get('rdm_after') if k > 0 else None) or case['want']['rdm']
-        if getattr(ref, 'pending', None) is not None:
-            prev_form, prev, prev_kk = o['form'], o, kk          # not canonical: nothing else to compare
+        if getattr(ref, 'pending', None) is not None or getattr(ref, 'approx', False):
+            prev_form, prev, prev_kk = o['form'], o, kk          # not (exactly) canonical: nothing else to compare
             continue
         if not state['dead']:
             c07.seg_rdm_check(ctx, A, kk, o, segs, ref.tm().rdm, False, info, fail, k)
